@@ -15,6 +15,9 @@ pub struct C09 {
     model: SetModel,
     /// Where the SRT endpoint is, by the monitor's own observation.
     client: Option<std::net::SocketAddr>,
+    /// The monitor's own "a keepalive is outstanding" per link: one was handed to the socket since
+    /// the link's last reset and no echo has come back since (the implementation's flag implies it).
+    own_outstanding: HashMap<u64, bool>,
 }
 
 impl C09 {
@@ -143,6 +146,39 @@ impl Monitor for C09 {
             }
         }
 
+        // ---- the monitor's own outstanding-keepalive record ----
+        let reset_between = |a: &[crate::lsim::LinkView], b: &[crate::lsim::LinkView]| -> Vec<u64> {
+            a.iter()
+                .filter_map(|va| {
+                    let vb = b.iter().find(|x| x.conn_id == va.conn_id)?;
+                    let reg_err = ctx.uplink.iter().any(|(c, d)| *c == va.conn_id && ptype(d) == Some(T_REG_ERR));
+                    let fell = va.connected && !vb.connected && !reg_err;
+                    (va.fd != vb.fd || va.last_attempt_ms != vb.last_attempt_ms || fell).then_some(va.conn_id)
+                })
+                .collect()
+        };
+        for c in reset_between(ctx.pre, ctx.mid) {
+            self.own_outstanding.insert(c, false);
+        }
+        for w in &ctx.wire[..ctx.wire_mid] {
+            if w.call == srtla_send::net::verif_hooks::UplinkCall::Send
+                && ptype(&w.offered[0]) == Some(T_KEEPALIVE)
+                && let Some(v) = ctx.pre.iter().find(|v| v.fd == Some(w.fd))
+                && find_view(ctx.mid, v.conn_id).is_some_and(|m| m.connected && m.fd == v.fd)
+            {
+                self.own_outstanding.insert(v.conn_id, true);
+            }
+        }
+        let own_mid: HashMap<u64, bool> = self.own_outstanding.clone();
+        // echoes consume the record; resets in the trailing part clear it
+        for (c, b) in &processed {
+            if ptype(b) == Some(T_KEEPALIVE) {
+                self.own_outstanding.insert(*c, false);
+            }
+        }
+        for c in reset_between(ctx.mid, ctx.post) {
+            self.own_outstanding.insert(c, false);
+        }
         // ---- liveness stamp differential ----
         for pre in ctx.pre {
             let Some(post) = find_view(ctx.post, pre.conn_id) else {
@@ -199,6 +235,11 @@ impl Monitor for C09 {
                 } else {
                     find_view(ctx.mid, pre.conn_id).map(|m| m.waiting_ka).unwrap_or(pre.waiting_ka)
                 };
+                // an "answered keepalive" needs a keepalive that was really sent on this link since
+                // its last reset (monitor's own record as of the main action of this step)
+                if !own_mid.get(&pre.conn_id).copied().unwrap_or(false) {
+                    waiting = false;
+                }
                 let mut answered = false;
                 for (c, b) in &processed {
                     if *c != pre.conn_id || ptype(b) != Some(T_KEEPALIVE) {
